@@ -722,13 +722,16 @@ public:
         // size parameter name). By adding `_<depth>` suffix we ensure that
         // there will be no two identical parameter names because each level has
         // unique suffix which is used only in case of conflicts.
-        if(std::find(
-               std::begin(existing_names),
-               std::end(existing_names),
-               desired_name)
-           != std::end(existing_names))
+        // The same name can be produced more than once on the same depth
+        // (`x/y_z` and `x_y/z`) so the suffix is added until the name is
+        // unique.
+        while(std::find(
+                  std::begin(existing_names),
+                  std::end(existing_names),
+                  desired_name)
+              != std::end(existing_names))
         {
-            return fmt::format("{}_{}", desired_name, level_depth);
+            desired_name = fmt::format("{}_{}", desired_name, level_depth);
         }
 
         return desired_name;
